@@ -109,7 +109,7 @@ class Sim:
         obj = self.obj
         if obj.err is not None:
             self.flags.add("connect_after_error")
-        if how == "good":
+        if how.startswith("good"):
             board = Board("ebb3", version="3.0.2")
         elif how == "old":
             board = Board("ebb3", version="2.8.1")
@@ -118,15 +118,30 @@ class Sim:
         else:
             board = None                       # silent device (also used for "cannot_open")
         port = self._new_port(board)
-        fail = {em.PORT_NAME: "SerialException"} if how == "cannot_open" else {}
-        factory = SerialFactory({em.PORT_NAME: port}, fail=fail)
+        fail = {}
+        if how.startswith("cannot_open"):
+            # plain failure, or the port is held by another program (errno EBUSY / EACCES, the Windows wording)
+            fail = {em.PORT_NAME: {"cannot_open": "SerialException", "cannot_open_busy": "SerialException(EBUSY)",
+                                   "cannot_open_eacces": "SerialException(EACCES)",
+                                   "cannot_open_denied": "SerialException(denied)"}[how]}
+        name = None
+        if how in ("good_second", "good_by_name"):
+            # a second board on another device node, asked for by name (or the first one, by its device name)
+            name = SECOND_PORT if how == "good_second" else em.PORT_NAME
+            port.port = port.name = port.portstr = name
+        factory = SerialFactory({name or em.PORT_NAME: port}, fail=fail)
         # "absent": the board is not on the bus (unplugged, or still re-enumerating after a reboot)
-        listed = {"absent": [], "foreign_only": [("COM1", "USB Serial Device (COM1)", "USB VID:PID=1A86:7523")]}.get(
+        listed = {"absent": [], "foreign_only": [("COM1", "USB Serial Device (COM1)", "USB VID:PID=1A86:7523")],
+                  "good_second": list(em.COMPORTS_ONE) + [(SECOND_PORT, "EiBotBoard",
+                                                           "USB VID:PID=04D8:FD92 LOCATION=1-2")]}.get(
             how, em.COMPORTS_ONE)
         with patched((em.ebb3_serial, "comports", lambda: list(listed)),
                      (serial, "Serial", factory)):
             try:
-                obj.connect()
+                if name is None:
+                    obj.connect()
+                else:
+                    obj.connect(name)
             except Exception as exc:  # pylint: disable=broad-except
                 self.fail("connect(%s) raised %s: %s" % (how, type(exc).__name__, exc))
         self.port = obj.port if isinstance(obj.port, FakePort) else self.port
@@ -246,7 +261,8 @@ class Machine(RuleBasedStateMachine):
             raise
 
     @rule(how=st.sampled_from(["good", "good", "good", "old", "nonebb", "silent", "cannot_open", "absent",
-                               "foreign_only"]))
+                               "foreign_only", "good_second", "good_by_name", "cannot_open_busy",
+                               "cannot_open_eacces", "cannot_open_denied"]))
     def connect(self, how):
         self._step(["connect", how])
 
@@ -366,7 +382,8 @@ def vocabulary_body(ctx, case):
 
 def flood_grid():
     for kind in WARM_FAULTS:
-        for how in ("silent", "cannot_open", "nonebb", "old"):
+        for how in ("silent", "cannot_open", "nonebb", "old", "cannot_open_busy", "cannot_open_eacces",
+                    "cannot_open_denied", "absent"):
             yield ["flood", kind, how]
 
 
@@ -395,13 +412,19 @@ def flood_body(ctx, case):
     ctx.record(case, sim.flags | {"flood_of_later_errors"}, nontrivial=True)
 
 
-FAILED_CONNECTS = ("absent", "foreign_only", "silent", "cannot_open", "nonebb", "old")
+FAILED_CONNECTS = ("absent", "foreign_only", "silent", "cannot_open", "nonebb", "old", "cannot_open_busy",
+                   "cannot_open_denied")
+SECOND_PORT = "/dev/ttyACM1"
 
 
 def reconnect_grid():
     for kind in WARM_FAULTS:
+        for last in ("good", "good_second", "good_by_name"):
+            # straight back to the same board, to another board on another device node, or by device name
+            yield ["reconnect", kind, [], last]
         for first in FAILED_CONNECTS:
             yield ["reconnect", kind, [first]]
+            yield ["reconnect", kind, [first], "good_second"]
             for second in FAILED_CONNECTS:
                 yield ["reconnect", kind, [first, second]]
 
@@ -410,7 +433,7 @@ def reconnect_body(ctx, case):
     """An error is latched, the application disconnects, polls connect() while the board is away or unusable (one
     or two failed attempts of any kind) and connects again once it is back: the object still carries its first
     error, so every request stays silent and fails."""
-    _tag, kind, failed = case
+    _tag, kind, failed = case[:3]
     sim = Sim(ctx)
     sim.step(["connect", "good"])
     idx, action = WARM_FAULTS[kind]
@@ -421,7 +444,7 @@ def reconnect_body(ctx, case):
         sim.step(["connect", how])
         if how == "old":
             sim.step(["disconnect", None])
-    sim.step(["connect", "good"])
+    sim.step(["connect", case[3] if len(case) > 3 else "good"])
     for name in ("command", "query", "xy_move", "var_write", "query_steps", "pen_raise"):
         sim.step(["call", name, list(em.METHODS[name][1]), {}])
     if first is None:
